@@ -198,6 +198,8 @@ func genC18(t *rapid.T) hCase {
 		cs.Bundles[i].TsKind = 0
 		if cs.Algo == "binary_spray" && !cs.Bundles[i].Local {
 			cs.Bundles[i].Copies = rapid.IntRange(1, 8).Draw(t, "copies")
+			// one of our own bundles comes back from a relay with k copies: it holds k, not L
+			cs.Bundles[i].OwnSrc = rapid.IntRange(0, 3).Draw(t, "ownsrc") == 0
 		}
 		if rapid.IntRange(0, 2).Draw(t, "far") == 0 {
 			cs.Bundles[i].Dest = cs.NPeers // never connects
